@@ -12,7 +12,9 @@ package main
 import (
 	"encoding/json"
 	"fmt"
+	"github.com/hattya/go.sh/parser"
 	"sort"
+	"strconv"
 	"strings"
 
 	"github.com/hattya/go.sh/ast"
@@ -266,6 +268,78 @@ func c17Run(w *W) {
 		}
 	}
 	c17SubstRun(w, tables)
+	c17TextRun(w)
+}
+
+// c17TextRun: one alias x whose value is ARBITRARY text (it may end inside a quote, a substitution, a comment, hold
+// newlines and operators).  The source begins with the word x followed by a blank or newline, so the program must be the
+// one obtained from the text with that first x replaced by the value — compared as successive ParseCommands results.
+func c17TextRun(w *W) {
+	nv := 3
+	if w.thorough() {
+		nv = 4
+	}
+	parseAllEnv := func(env *interp.ExecEnv, src string) (string, bool) {
+		r := strings.NewReader(src)
+		var b strings.Builder
+		for r.Len() > 0 {
+			var cmds []ast.Command
+			var err error
+			var pan interface{}
+			func() {
+				defer func() { pan = recover() }()
+				cmds, _, err = parser.ParseCommands(env, "t", r)
+			}()
+			quiesce()
+			if pan != nil {
+				return fmt.Sprintf("panic: %v", pan), false
+			}
+			if err != nil {
+				return b.String() + " error", true
+			}
+			if len(cmds) > 0 { // (a comment-only or blank line gives an empty result of its own or not: not compared)
+				b.WriteString(dumpAST(cmds, false) + "; ")
+			}
+		}
+		return b.String(), true
+	}
+	genRunes([]rune("a \n;'#$(`\\|x\"<){}"), nv, func(rs []rune) {
+		if len(rs) == 0 || !w.Mine() || w.TimeUp() {
+			return
+		}
+		v := string(rs)
+		if strings.HasSuffix(v, "\\") || strings.TrimRight(v, " \t") == "" || strings.Contains(v, "\n") {
+			return // the character after the value would be escaped / nothing to substitute / several commands (one call returns one command: C01 only)
+		}
+		w.Count("states", 1)
+		w.Announce("alias x=" + strconv.Quote(v))
+		env := interp.NewExecEnv("sh")
+		env.Aliases["x"] = v
+		for _, rest := range []string{"", " a\n", "\nb\n", " | b\n", " b\")'`}\n", " <<E\ny\nE\n"} {
+			src := "x" + rest
+			tail := rest
+			if tail == "" {
+				tail = " "
+			}
+			text := strings.TrimRight(v, " \t") + " " + strings.TrimLeft(tail, " ")
+			if strings.HasPrefix(tail, "\n") {
+				text = strings.TrimRight(v, " \t") + " " + tail
+			}
+			w.Count("evaluations", 1)
+			w.Count("text_level_alias_values", 1)
+			w.Count("traces_validated_against_impl", 1)
+			w.Count("distinct_nontrivial", 1)
+			got, ok1 := parseAllEnv(env, src)
+			want, ok2 := parseAllEnv(nil, text)
+			c := c17Case{Aliases: map[string]string{"x": v}, Syms: []string{"%text"}, Src: src, Unfold: text}
+			switch {
+			case !ok1 || !ok2:
+				w.Violation("", c, fmt.Sprintf("alias x=%q source %q: %s / text %q: %s", v, src, got, text, want))
+			case got != want:
+				w.Violation("alias-text", c, fmt.Sprintf("alias x=%q source %q gives %s; the text with x replaced, %q, gives %s", v, src, got, text, want))
+			}
+		}
+	})
 }
 
 // c17SubstRun: command substitutions in the source whose commands name aliases.
@@ -311,7 +385,7 @@ func init() {
 	register(&check{
 		id:    "C17",
 		level: "model_checking",
-		rule: "every alias table with ≤ 2 entries (thorough: ≤ 3) over names {x y z} and the 23-value menu (incl. values with $( ), backquote, $(( )) and ${ } expansions) {a, 'a b', 'a ', y, 'y ', x, 'x ', 'a ;', 'a |', if, b=1, 'b=1 ', '> f', 'x', 'a  ' (two blanks), 'y <blank><tab>', 'y ; y', 'y ; z'} plus 8 fixed three-entry chain/cycle tables and 140 three-entry tables whose outer value holds several commands that are aliases (x → y…z, y → z, z → text) × every symbol string ≤ 3 (thorough: ≤ 4 for the tables of ≤ 2 entries) over {x y a 'x' x=1 ; | if then fi ( ) >}; command substitutions in the source ($( ), backquotes, inside double quotes and ${v:-…}) holding every command list ≤ 2 symbols over {x y a ; | 'x'} and 5 compound forms, for every table of ≤ 2 entries; " +
+		rule: "every alias table with ≤ 2 entries (thorough: ≤ 3) over names {x y z} and the 23-value menu (incl. values with $( ), backquote, $(( )) and ${ } expansions) {a, 'a b', 'a ', y, 'y ', x, 'x ', 'a ;', 'a |', if, b=1, 'b=1 ', '> f', 'x', 'a  ' (two blanks), 'y <blank><tab>', 'y ; y', 'y ; z'} plus 8 fixed three-entry chain/cycle tables and 140 three-entry tables whose outer value holds several commands that are aliases (x → y…z, y → z, z → text) × every symbol string ≤ 3 (thorough: ≤ 4 for the tables of ≤ 2 entries) over {x y a 'x' x=1 ; | if then fi ( ) >}; command substitutions in the source ($( ), backquotes, inside double quotes and ${v:-…}) holding every command list ≤ 2 symbols over {x y a ; | 'x'} and 5 compound forms, for every table of ≤ 2 entries; text level: one alias whose value is every string of ≤ 3 (thorough 4) characters over 17 significant characters (no newline) × 6 continuations of the source, compared with the text in which the word is replaced; " +
 			"non-trivial = the reference replacement changes the text",
 		assume: []string{"the reference replacement (c17.go unfold) uses the grammar model to find command-name positions; the unfolded text is parsed by the real parser without aliases, so only the substitution itself is modelled",
 			"alias values containing newlines are exercised for termination only (C01)"},
